@@ -258,8 +258,11 @@ class FineGrainedBuildManager:
             # Handle blocking errors first. We'll exit as soon as we find a
             # module that still has blocking errors.
             self.manager.log_fine_grained(f"existing blocker: {self.blocking_error[0]}")
-            changed_modules = dedupe_modules([self.blocking_error] + changed_modules)
             blocking_error = self.blocking_error[0]
+            # Process the module with the blocker first, but at its current path if that changed
+            # (a stub was added for it, or it moved into a package).
+            current = [mod for mod in changed_modules if mod[0] == blocking_error]
+            changed_modules = dedupe_modules((current or [self.blocking_error]) + changed_modules)
             self.blocking_error = None
 
         while True:
